@@ -17,6 +17,8 @@ for name in sorted(os.listdir(S)):
         continue
     meta = json.load(open(os.path.join(d, "meta.json")))
     props = [meta["property"]] + ALSO.get(name, [])
+    if name.startswith("R3-C05-gpa"):
+        props = ["C05", "C13"]
     if name.startswith("R2-C05-ring-extent"):
         props = ["C05", "C14", "C13"]
     props = [p for p in props if os.path.exists(os.path.join(V, "checks", p.lower() + ".py"))]
